@@ -228,6 +228,11 @@ var c20GenVarMap = map[string]interface{}{
 	"n_slot.0": 4, "b_flag.1": false, "n_q.2x": int64(-3), "x_float": float64(250), "x_float2": 2.5,
 }
 
+var c20GenVarWant = map[string]eval.Value{
+	"n_seven": int64(7), "n_i32": int64(-9), "n_u8": int64(200), "n_dur": int64(90), "n_time": int64(1700000000),
+	"b_true": true, "n_slot.0": int64(4), "b_flag.1": false, "n_q.2x": int64(-3),
+}
+
 // c20Value: the value of a variable under the engine's normalisation.
 func c20Value(name string) (eval.Value, bool) {
 	for _, l := range [][]eval.GenExprResult{c20Num, c20Bool, c20NumOp, c20BoolOp} {
@@ -237,8 +242,11 @@ func c20Value(name string) (eval.Value, bool) {
 			}
 		}
 	}
-	if v, ok := c20GenVarMap[name]; ok && v != interface{}(eval.DNE) {
-		return eval.UnifyType(v), true
+	// what the GenVariables entries are worth to the ENGINE (written down, not
+	// computed with the library's own conversion); entries that are neither a
+	// number nor a boolean for the engine (x_...) have no value here
+	if v, ok := c20GenVarWant[name]; ok {
+		return v, true
 	}
 	return nil, false
 }
@@ -264,13 +272,17 @@ func newC20Worker() *c20worker {
 
 // c20vals: what the variables are worth for one generator call.
 type c20vals struct {
-	val func(name string) (eval.Value, bool)
-	dne func(name string) bool
+	val       func(name string) (eval.Value, bool)
+	dne       func(name string) bool
+	isDefault bool
 }
 
-var c20Default = c20vals{val: c20Value, dne: func(n string) bool {
+var c20Default = c20vals{isDefault: true, val: c20Value, dne: func(n string) bool {
 	return strings.HasPrefix(n, "d_") || n == "xor" || n == "overlap"
 }}
+
+// isDefaultVals: is vf the default value source (the static variable tables)?
+func isDefaultVals(vf c20vals) bool { return vf.isDefault }
 
 type c20fetch struct{ v c20vals }
 
@@ -364,10 +376,16 @@ func c20CheckV(r *rep.Run, w *c20worker, c c20cfg, level int, how string, res ev
 	}
 	atomic.AddInt64(&stats[1], 1)
 	var got drive.Out
+	var fetcher eval.VariableFetcher = c20fetch{vf}
+	if c.viaGenVariables && vf.val != nil && isDefaultVals(vf) {
+		// the variables exactly as the caller holds them, through the library's
+		// own fetcher (DNE-valued entries are the generator's convention)
+		fetcher = eval.NewMapVarFetcher(c20GenVarMap)
+	}
 	if hasDNE {
-		got = w.h.TryEval(e, c20fetch{vf})
+		got = w.h.TryEval(e, fetcher)
 	} else {
-		got = w.h.Eval(e, c20fetch{vf})
+		got = w.h.Eval(e, fetcher)
 	}
 	atomic.AddInt64(&stats[2], 1)
 	if got.Err != nil || got.Panic != nil || (!ref.ValEqual(got.Val, res.Res) && !(got.Val == eval.DNE && res.Res == eval.DNE)) {
